@@ -418,8 +418,25 @@ def coerce_hint_any(hint: Hint) -> Hint:
         #FIXME: [SPEED] Globalize the
         #_hint_repr_to_hint.cache_or_get_cached_value() bound method and call
         #that globalized bound method here instead as a negligible speedup.
-        hint = _hint_repr_to_hint.cache_or_get_cached_value(  # type: ignore[return-value]
+        hint_cached = _hint_repr_to_hint.cache_or_get_cached_value(
             key=get_hint_repr(hint), value=hint)
+
+        # If the previously cached copy of this hint is actually equal to this
+        # hint, replace this hint by that copy. Note that this is *NOT*
+        # necessarily the case. Two unequal hints share the same
+        # machine-readable representation when subscripted by two different
+        # classes (or PEP 484-compliant new types) sharing the same
+        # fully-qualified name (e.g., a class redefined by an interactive REPL
+        # or module reload, or a class declared by a factory function called
+        # multiple times). Replacing this hint by an unequal hint would then
+        # erroneously type-check against the wrong class.
+        try:
+            if hint_cached == hint:
+                hint = hint_cached  # type: ignore[assignment]
+        # If comparing these hints raises an exception (e.g., due to a child
+        # hint overriding the __eq__() dunder method), preserve this hint.
+        except Exception:
+            pass
     # Else, this hint is (hopefully) self-caching.
 
     # ..................{ RETURN                             }..................
